@@ -10,7 +10,9 @@ import (
 	"pgregory.net/rapid"
 
 	"verif/harness/peer"
+	"verif/harness/rawframe"
 	"verif/harness/refhpack"
+	"verif/harness/speer"
 )
 
 // C20 — malformed HTTP messages are rejected; well-formed ones are all accepted.
@@ -486,4 +488,290 @@ func TestC20(t *testing.T) {
 		"CONNECT, '*' paths, characters outside token/field-value, empty names and duplicated content-length are not generated (RFC 7540 does not fix their treatment)", "the body of a request already refused at header time is not sent (frames in flight after the server's RST are C09's subject)")
 	defer s.finish()
 	runLane(s, Lane[c20Case]{Name: "server", Journal: true, Quick: 4000, Thor: 600000, Gen: c20Gen, Run: c20Run})
+	runLane(s, Lane[c20CCase]{Name: "client", Journal: true, Quick: 500, Thor: 60000, Gen: c20CGen, Run: c20CRun})
+}
+
+// ---- client half -----------------------------------------------------------
+
+// wellFormedResponse: exactly one :status of three digits before any regular
+// field, no other pseudo-header, lower-case names, no connection-specific
+// field, numeric content-length.
+func wellFormedResponse(list []refhpack.Field) (bool, string) {
+	status := 0
+	regular := false
+	for _, f := range list {
+		if f.Name != strings.ToLower(f.Name) {
+			return false, "upper-case field name"
+		}
+		if strings.HasPrefix(f.Name, ":") {
+			if regular {
+				return false, "pseudo-header after a regular field"
+			}
+			if f.Name != ":status" {
+				return false, "pseudo-header other than :status"
+			}
+			status++
+			if status > 1 {
+				return false, "duplicate :status"
+			}
+			if len(f.Value) != 3 {
+				return false, ":status is not three digits"
+			}
+			for _, c := range f.Value {
+				if c < '0' || c > '9' {
+					return false, ":status is not a number"
+				}
+			}
+			if f.Value[0] == '0' {
+				return false, ":status below 100"
+			}
+			continue
+		}
+		regular = true
+		if connSpecific[f.Name] {
+			return false, "connection-specific field"
+		}
+		if f.Name == "content-length" {
+			if f.Value == "" {
+				return false, "empty content-length"
+			}
+			for _, c := range f.Value {
+				if c < '0' || c > '9' {
+					return false, "content-length is not a number"
+				}
+			}
+		}
+	}
+	if status != 1 {
+		return false, "no :status"
+	}
+	return true, ""
+}
+
+type c20CCase struct {
+	Before int              `json:"before"`
+	After  int              `json:"after"`
+	List   []peer.FieldSpec `json:"list"`
+	Body   int              `json:"body"`
+	Split  int              `json:"split,omitempty"`
+	Mut    string           `json:"mut,omitempty"`
+}
+
+func c20CRun(c c20CCase) Outcome {
+	env, err := speer.NewEnv(clientOpts())
+	if err != nil {
+		return Outcome{Inconcl: "cannot set the client up: " + err.Error()}
+	}
+	defer env.Close()
+	sc := env.Conn(0)
+	if sc == nil {
+		return Outcome{Inconcl: "no connection"}
+	}
+	answerOK := func(id uint32, tag string) {
+		list := []peer.FieldSpec{{F: refhpack.Field{Name: ":status", Value: "200"}, R: refhpack.Rep{Kind: 0}},
+			{F: refhpack.Field{Name: "x-tag", Value: tag}, R: refhpack.Rep{Kind: 1, HuffVal: true}},
+			{F: refhpack.Field{Name: "x-shared", Value: "shared-value-in-the-table"}, R: refhpack.Rep{Kind: 0, Alt: 1}}}
+		for _, f := range peer.SplitBlock(id, sc.EncodeBlock(nil, list), nil, false, 0, false, 0, false, 0) {
+			_ = sc.Write(f)
+		}
+		_ = sc.Write(rawframe.Append(nil, rawframe.Data, rawframe.FlagEndStream, id, peer.BodyFor(tag, 20)))
+		sc.StreamDone(id)
+	}
+	streamOf := func(tag string) uint32 {
+		for _, e := range sc.EventsCopy() {
+			if e.Kind == "headers" {
+				for _, f := range e.Fields {
+					if f.Name == ":path" && peer.TagOfURI(f.Value) == tag {
+						return e.Stream
+					}
+				}
+			}
+		}
+		return 0
+	}
+	do := func(tag string) (*speer.Call, uint32, *Outcome) {
+		call := env.Do(speer.ReqSpec{Tag: tag, Method: "GET", Path: "/" + tag})
+		if ok, d := env.Quiesce(); !ok {
+			return nil, 0, &Outcome{Inconcl: "no quiescence after sending " + tag + ": " + d}
+		}
+		id := streamOf(tag)
+		if id == 0 {
+			return call, 0, &Outcome{Inconcl: "request " + tag + " did not reach the server"}
+		}
+		return call, id, nil
+	}
+	neighbour := func(tag string) *Outcome {
+		call, id, o := do(tag)
+		if o != nil {
+			if id == 0 && call != nil && call.Finished() && call.Err != nil {
+				oo := fail("neighbour", "neighbour request %s of the response (%s) failed before it was sent: %v", tag, c.Mut, call.Err)
+				return &oo
+			}
+			return o
+		}
+		answerOK(id, tag)
+		if ok, d := env.Quiesce(); !ok {
+			return &Outcome{Inconcl: "no quiescence after answering " + tag + ": " + d}
+		}
+		if !call.Finished() {
+			oo := fail("neighbour", "neighbour request %s of the response (%s) never resolved", tag, c.Mut)
+			return &oo
+		}
+		if call.Err != nil || call.Status != 200 || string(call.Body) != string(peer.BodyFor(tag, 20)) {
+			oo := fail("neighbour", "neighbour request %s of the response (%s) got err=%v status=%d body=%q fields=%v", tag, c.Mut, call.Err, call.Status, headStr(call.Body), call.Fields)
+			return &oo
+		}
+		found := false
+		for _, f := range call.Fields {
+			if f.Name == "x-tag" && f.Value == tag {
+				found = true
+			}
+		}
+		if !found {
+			oo := fail("neighbour", "neighbour request %s of the response (%s) got fields %v: not its own", tag, c.Mut, call.Fields)
+			return &oo
+		}
+		return nil
+	}
+	for i := 0; i < c.Before; i++ {
+		if o := neighbour(fmt.Sprintf("b%d", i)); o != nil {
+			return *o
+		}
+	}
+	call, id, o := do("target")
+	if o != nil {
+		return *o
+	}
+	list := plainList(c.List)
+	wf, why := wellFormedResponse(list)
+	var splits []int
+	if c.Split > 0 {
+		splits = []int{c.Split}
+	}
+	for _, f := range peer.SplitBlock(id, sc.EncodeBlock(nil, c.List), splits, c.Body == 0, 0, false, 0, false, 0) {
+		_ = sc.Write(f)
+	}
+	if c.Body > 0 {
+		_ = sc.Write(rawframe.Append(nil, rawframe.Data, rawframe.FlagEndStream, id, peer.BodyFor("target", c.Body)))
+	}
+	sc.StreamDone(id)
+	if ok, d := env.Quiesce(); !ok {
+		return Outcome{Inconcl: "no quiescence after the target response: " + d}
+	}
+	desc := fmt.Sprintf("response %s body=%d", fmtFields(list), c.Body)
+	if !call.Finished() {
+		return fail("unresolved", "%s (well-formed=%v %s): the request never resolved", desc, wf, why)
+	}
+	if wf {
+		if call.Err != nil {
+			return fail("wellformed-rejected", "well-formed %s: the caller got error %q", desc, call.Err)
+		}
+		if strconv.Itoa(call.Status) != statusOf(list) || len(call.Body) != c.Body {
+			return fail("wellformed-wrong", "well-formed %s: the caller got status %d and %d body bytes", desc, call.Status, len(call.Body))
+		}
+	} else if call.Err == nil {
+		return fail("malformed-delivered", "malformed %s (%s) was delivered to the caller (status %d)", desc, why, call.Status)
+	}
+	for i := 0; i < c.After; i++ {
+		if o := neighbour(fmt.Sprintf("a%d", i)); o != nil {
+			return *o
+		}
+	}
+	cls := []string{"cmut:" + c.Mut}
+	if wf {
+		cls = append(cls, "wellformed")
+	} else {
+		cls = append(cls, "malformed")
+	}
+	return Outcome{NonTrivial: !wf && !strings.Contains(c.Mut, "+") || wf && len(list) > 2, Classes: cls}
+}
+
+func statusOf(list []refhpack.Field) string {
+	for _, f := range list {
+		if f.Name == ":status" {
+			return f.Value
+		}
+	}
+	return ""
+}
+
+func c20CGen(t *rapid.T) c20CCase {
+	c := c20CCase{Before: rapid.IntRange(0, 2).Draw(t, "before"), After: rapid.IntRange(0, 2).Draw(t, "after")}
+	status := strconv.Itoa(rapid.OneOf(rapid.SampledFrom([]int{200, 404, 500, 100 + 99, 999}), rapid.IntRange(200, 599)).Draw(t, "status"))
+	if status == "204" || status == "304" {
+		status = "200"
+	}
+	list := []peer.FieldSpec{genFieldSpec(t, ":status", status)}
+	n := rapid.IntRange(0, 5).Draw(t, "nf")
+	for i := 0; i < n; i++ {
+		name := rapid.SampledFrom([]string{"cache-control", "etag", "vary", "x-a", "x-b", "x-shared", "location"}).Draw(t, "name")
+		list = append(list, genFieldSpec(t, name, genValueN(t, "v", genLen(t, "vl", 40))))
+	}
+	if rapid.Bool().Draw(t, "body") {
+		c.Body = rapid.IntRange(1, 200).Draw(t, "blen")
+	}
+	if rapid.Bool().Draw(t, "cl") {
+		list = append(list, genFieldSpec(t, "content-length", strconv.Itoa(c.Body)))
+	}
+	var muts []string
+	nm := rapid.SampledFrom([]int{0, 0, 1, 1, 1, 2}).Draw(t, "nmut")
+	for i := 0; i < nm; i++ {
+		switch rapid.IntRange(0, 9).Draw(t, "mut") {
+		case 0:
+			list = list[1:]
+			muts = append(muts, "no-status")
+			if len(list) == 0 {
+				list = append(list, genFieldSpec(t, "x-a", "1"))
+			}
+		case 1:
+			list = append([]peer.FieldSpec{list[0]}, list...)
+			muts = append(muts, "dup-status")
+		case 2:
+			if len(list) > 1 {
+				list = append(list[1:], list[0])
+				muts = append(muts, "status-not-first")
+			}
+		case 3:
+			list[0].F.Value = rapid.SampledFrom([]string{"abc", "20", "2000", "099", "1e2", "", "2 0"}).Draw(t, "bs")
+			muts = append(muts, "bad-status-value")
+		case 4:
+			list = append([]peer.FieldSpec{genFieldSpec(t, rapid.SampledFrom([]string{":path", ":method", ":foo"}).Draw(t, "ps"), "x")}, list...)
+			muts = append(muts, "request-pseudo")
+		case 5:
+			list = append(list, genFieldSpec(t, rapid.SampledFrom([]string{"X-Upper", "Etag", "Content-Length"}).Draw(t, "up"), "1"))
+			muts = append(muts, "uppercase")
+		case 6:
+			list = append(list, genFieldSpec(t, rapid.SampledFrom(connSpecificNames).Draw(t, "cs"), "close"))
+			muts = append(muts, "connection-specific")
+		case 7:
+			var nl []peer.FieldSpec
+			for _, f := range list {
+				if f.F.Name != "content-length" {
+					nl = append(nl, f)
+				}
+			}
+			list = append(nl, genFieldSpec(t, "content-length", rapid.SampledFrom([]string{"abc", "-1", "", "1.5", "0x10"}).Draw(t, "bcl")))
+			muts = append(muts, "bad-content-length")
+		case 8:
+			if len(list) > 1 {
+				list = append(list, list[len(list)-1])
+				muts = append(muts, "repeat-regular")
+			}
+		default:
+			list = append(list, genFieldSpec(t, "set-cookie", "a=b"), genFieldSpec(t, "set-cookie", "c=d"))
+			muts = append(muts, "set-cookies")
+		}
+	}
+	for i := range list {
+		list[i].F.Sensitive = false
+		if list[i].R.Kind == 3 {
+			list[i].R.Kind = 1
+		}
+	}
+	c.List = list
+	c.Mut = strings.Join(muts, "+")
+	if rapid.IntRange(0, 3).Draw(t, "split") == 0 {
+		c.Split = rapid.IntRange(1, 200).Draw(t, "splitat")
+	}
+	return c
 }
